@@ -66,7 +66,7 @@ func c03Scenario(p c03Params) *explore.Scenario {
 		Family: "order",
 		Name:   p.name(),
 		Params: map[string]interface{}{"verbs": strings.Join(p.Verbs, ","), "end": p.End, "cuts": p.Cuts, "segs": p.Segs, "long": p.LongLn},
-		Opt:    vx.Options{MaxSteps: 40000 + 4000*len(p.Verbs), Horizon: time.Minute, ChanCap: p.ChanCap},
+		Opt:    vx.Options{MaxSteps: 40000 + 4000*len(p.Verbs), Horizon: time.Minute + time.Duration(p.SleepMs*(len(p.Verbs)+2)*8)*time.Millisecond, ChanCap: p.ChanCap},
 	}
 	sc.Params["chancap"] = p.ChanCap
 	sc.Params["sleep_ms"] = p.SleepMs
@@ -372,6 +372,8 @@ func init() {
 					jobs = append(jobs, ExploreJob("C03", ExploreSpec{Sc: c03Scenario(c03Params{Verbs: six, End: end, Segs: "one", SleepMs: sl, Yields: 1, ChanCap: 2}), Variants: []int{1, 2, 3}, Budgets: budgets, Cache: true}, 60))
 				}
 			}
+			// handlers that take five virtual minutes each (longer than any timeout the library knows)
+			jobs = append(jobs, ExploreJob("C03", ExploreSpec{Sc: c03Scenario(c03Params{Verbs: patterns[0], End: "quiet-eof", Segs: "one", SleepMs: 300000}), Variants: []int{1, 2, 3}, Budgets: []explore.Budget{{0, 0}, {1, 0}}, Cache: true}, 20))
 			// handler duration as virtual sleep; a line longer than the read buffer
 			jobs = append(jobs, ExploreJob("C03", ExploreSpec{Sc: c03Scenario(c03Params{Verbs: patterns[0], End: "quiet-eof", Segs: "one", SleepMs: 500}), Variants: []int{1, 2, 3}, Budgets: []explore.Budget{{0, 0}, {1, 0}, {2, 0}}, Cache: true}, 20))
 			jobs = append(jobs, ExploreJob("C03", ExploreSpec{Sc: c03Scenario(c03Params{Verbs: patterns[0], End: "quiet-eof", Segs: "one", LongLn: true, Cuts: true}), Variants: []int{1, 2, 3}, Budgets: []explore.Budget{{0, 0}, {1, 0}, {0, 1}, {1, 1}}, Cache: true}, 20))
